@@ -184,26 +184,26 @@ def sampleDesc : Desc := { mediaType := "m", digest := "sha256:aa", size := 3, a
 /-- an accepted OCI verification with required metadata -/
 example : (run { kind := .oci, skip := false, parseOk := true, integrityOk := true, payloadTypeOk := true,
                  rest := true, decoded := some sampleDesc, artifact := { sampleDesc with annotations := [] },
-                 hashSupported := true, required := [("k", "v")], reader := "", plugin := false }).accepted = true := by decide
+                 hashSupported := true, required := [("k", "v")], reader := "", viaRegistry := false, plugin := false }).accepted = true := by decide
 
 /-- an accepted blob verification where the caller states no media type -/
 example : (run { kind := .blob, skip := false, parseOk := true, integrityOk := true, payloadTypeOk := true,
                  rest := true, decoded := some sampleDesc,
                  artifact := { sampleDesc with mediaType := "", annotations := [] },
-                 hashSupported := true, required := [], reader := "", plugin := false }).returned = some { sampleDesc with annotations := [] } := by
+                 hashSupported := true, required := [], reader := "", viaRegistry := false, plugin := false }).returned = some { sampleDesc with annotations := [] } := by
   decide
 
 /-- `Holds` refutes an acceptance of a signature made for another artifact -/
 example : Holds { kind := .oci, skip := false, parseOk := true, integrityOk := true, payloadTypeOk := true,
                   rest := true, decoded := some { sampleDesc with digest := "sha256:bb" },
-                  artifact := { sampleDesc with annotations := [] }, hashSupported := true, required := [], reader := "", plugin := false }
+                  artifact := { sampleDesc with annotations := [] }, hashSupported := true, required := [], reader := "", viaRegistry := false, plugin := false }
     { accepted := true, outcomeError := some false, payload := some { sampleDesc with digest := "sha256:bb" },
       returned := none } = false := by decide
 
 /-- how the blob reader delivers its bytes and whether an approving identity plugin is involved are
 not inputs of the decision -/
-theorem concretisation_irrelevant (i : Input) (r : String) (p : Bool) :
-    run { i with reader := r, plugin := p } = run i := by
+theorem concretisation_irrelevant (i : Input) (r : String) (p v : Bool) :
+    run { i with reader := r, plugin := p, viaRegistry := v } = run i := by
   simp [run]
 
 /-! ### tie to the translated source -/
